@@ -381,6 +381,7 @@ def check(repo, rep, tier):
     r_import_time_language(repo, rep, 'R19.2', repo.py_files('depccg/printer'))
     from ..parse_model import ParseModel
     from .. import rules_cxx as rc
+    rc.r_nbest(ParseModel(repo), rep, 'R19.3')         # every tree of an n-best list is built from token 0 on: a counter that runs on makes the glue code raise for the whole batch
     rc.r_search_loop(ParseModel(repo), rep, 'R19.3')   # failure is reported exactly when no tree was found: no empty result list
     ti = rp.r_category_table(repo, rep, 'R19.3')
     if ti:
